@@ -23,6 +23,7 @@ EXTENDS TypeAlg, Json
 CONSTANTS MaxParams,      \* 0..4
           Shapes,         \* subset of {1, 2}
           Rich,           \* BOOLEAN: larger argument sets
+          WithNone,       \* BOOLEAN: None is a type argument also when ~Rich (its preserve flag)
           SecondStep      \* BOOLEAN: enumerate the second instantiation step (else a2 = nothing)
 
 PNames == <<"P1", "P2", "P3", "P4">>
@@ -91,7 +92,7 @@ Unmark(t) == IF t[1] = "tup" THEN <<"tup", FALSE, t[3]>> ELSE IF t[1] = "none" T
 Tok(t) == CASE t[1] = "int" -> "5" [] t[1] = "tup" -> "(1, True)" [] t[1] = "none" -> "None"
             [] t[1] = "nat" -> "3" [] OTHER -> "?"
 TArgs == IF Rich THEN {TInt, TTup(<<TInt, TBool>>), TNone, TArr(TFloat, NatC("2"))}
-         ELSE {TInt, TTup(<<TInt, TBool>>)}
+         ELSE {TInt, TTup(<<TInt, TBool>>)} \cup (IF WithNone THEN {TNone} ELSE {})
 NArgs == IF Rich THEN {NatC("0"), NatC("3")} ELSE {NatC("3")}
 KArgs == IF Rich THEN {CVal(TInt, "5"), CVal(TInt, "-1")} ELSE {CVal(TInt, "5")}
 
